@@ -62,7 +62,7 @@ func init() {
 
 // ---- C14 ----
 
-const c14Rule = "(every sixth case publishes an EMPTY index, every sixth an index whose every AddDocument failed after indexing part of the document) sequential part: an index is published, half of the queries are answered, then the builder goes through a seeded sequence of Reset / AddDocument (documents introducing new fields) / ConfigField / BuildIndex operations (always starting with Reset), then the other half is answered on the OLD index: all answers must be those of the one pure model index (Coq); through the hook the field table of the published index and the builder's are probed for aliasing; concurrent part (-race build): three goroutines query the published index while a fourth loops Reset -> AddDocument(new fields) -> BuildIndex on its builder; every answer is compared with the one taken before the builder activity and any race-detector report is a violation. op 6 adds a new document carrying the very *Conjunction object the published generation ended with; op 7 re-registers the default-holder factory with parsers over a custom hash function (parser.NewHashAllocator(fn)); Non-trivial = some query returns a non-empty proper subset; distinct = distinct input"
+const c14Rule = "(every sixth case publishes an EMPTY index, every sixth an index whose every AddDocument failed after indexing part of the document) sequential part: an index is published, half of the queries are answered, then the builder goes through a seeded sequence of Reset / AddDocument (documents introducing new fields) / ConfigField / BuildIndex operations (always starting with Reset), then the other half is answered on the OLD index: all answers must be those of the one pure model index (Coq); through the hook the field table of the published index and the builder's are probed for aliasing; concurrent part (-race build): three goroutines query the published index while a fourth loops Reset -> AddDocument(new fields) -> BuildIndex on its builder; every answer is compared with the one taken before the builder activity and any race-detector report is a violation. op 6 adds a new document carrying the very *Conjunction object the published generation ended with; op 7 re-registers the default-holder factory with parsers over a custom hash function (parser.NewHashAllocator(fn)); a fifth of the sequences (and two dedicated ones) call ConfigField straight after publication, before the first Reset; Non-trivial = some query returns a non-empty proper subset; distinct = distinct input"
 
 type c14In struct {
 	C14  bool  `json:"c14"`
@@ -200,6 +200,17 @@ func init() {
 				}
 				add(c14In{C14: true, Case: c, Ops: []int{0, 6, 2, 0, 6, 4, 2}})
 				add(c14In{C14: true, Case: c, Ops: []int{7, 0, 4, 1, 2, 0, 4, 2}})
+				// ConfigField on the builder straight after publication (BEFORE any Reset), then a new generation: the published
+				// index does not know the fields configured later, whatever value a query gives them
+				{
+					c2 := c
+					c2.Queries = append([]eQuery{}, c.Queries...)
+					for j := len(c2.Queries) / 2; j < len(c2.Queries); j++ {
+						c2.Queries[j].A = setAssign(setAssign(c2.Queries[j].A, 2001, pick(r, []TV{tvBool(true), {T: "other:struct"}, tvInt("int", 2)})), 2002, tvBool(false))
+					}
+					add(c14In{C14: true, Case: c2, Ops: []int{3, 3, 0, 1, 2}})
+					add(c14In{C14: true, Case: c2, Ops: []int{3, 3, 0, 4, 2, 3}}) // (no BuildIndex before the first Reset: until then BuildIndex hands out the SAME index again, by design)
+				}
 				add(c14In{C14: true, Case: c, Ops: []int{0, 7, 4, 1, 2}})
 			}
 			for i := 0; i < n; i++ {
@@ -235,6 +246,9 @@ func init() {
 				}
 				for k := 1 + r.Intn(19); k > 0; k-- {
 					ops = append(ops, r.Intn(8))
+				}
+				if i%5 == 2 && i%6 != 2 && i%6 != 4 { // ConfigField straight after publication, before the first Reset
+					ops = append([]int{3}, ops...)
 				}
 				if i%6 == 3 { // factory change first, then a new generation through Reset / AddDocument / BuildIndex
 					ops = append([]int{0, 5, 0, 4, 1, 2}, ops...)
